@@ -6,7 +6,8 @@ Correspondence of Smt/Intervals.v (model) and Smt/IvRe.v (regex semantics) with
 plus a search for inputs violating the property itself (interval union = integer values of
 the matched strings; compression preserves the language), using Python's `re` and a
 reference `intval` as independent oracles."""
-import itertools, json, random, re as pyre, sys
+import concurrent.futures as cf
+import itertools, json, random, re as pyre, sys, time
 import lib
 from lib import g_str, g_Z, g_list
 
@@ -217,8 +218,9 @@ def deviate(rng, t):
 # (= first) element.  Used by the stateful streams: every call's result must not depend on earlier calls.
 # --------------------------------------------------------------------------
 CONCAT_FIRSTS = [("str", "-"), ("str", "+"), ("opt", ("str", "-")), ("opt", ("str", "+")), ZERO, ("plus", ZERO),
-                 ("union", ("str", "+"), ("str", "-")), ("union", ("str", "-"), ZERO), ("str", "7"), ("str", "a")]
-UNION_FIRSTS = [("str", d) for d in "0123456789"] + [("range", "1", "3"), ("range", "6", "8"), ("star", ZERO), ("str", "a")]
+                 ("union", ("str", "+"), ("str", "-")), ("union", ("str", "-"), ZERO)]
+# (no member may be unrecognised: on Nothing the implementation formats the deep term for its debug log at every level — seconds per call)
+UNION_FIRSTS = [("str", d) for d in "0123456789"] + [("range", "1", "3"), ("range", "6", "8"), ("star", ZERO)]
 
 
 def deep_family(rng):
@@ -333,6 +335,20 @@ def run(run):
         "compress on lists of such deep elements; 300 earlier regexes re-queried at the end. non-trivial = regex has a concatenation or union node")
     proof_ok = run.proof_stage()
     known = {e["key"]: e for e in lib.known_findings("C15") if e.get("status") == "open"}
+    # Coq evaluations are submitted as soon as their cases exist and run concurrently with the remaining
+    # implementation-side work; they are collected (in a fixed order) in section 6
+    pool_ex = cf.ThreadPoolExecutor(max_workers=8)
+    t_start = time.time()
+
+    def submit(tag, ok_def, cases, shard):
+        return pool_ex.submit(lib.coq_mismatches, tag, IMPORTS, ok_def, cases, shard)
+
+    def collect(fut, obligation):
+        try:
+            return fut.result()[0]
+        except RuntimeError as e:
+            run.violation({"kind": "correspondence-not-evaluable", "obligation": obligation, "error": str(e)[-2000:]}, found_input=False)
+            return None
 
     # ---------------- 0. replay witnesses of open findings ----------------
     for key, e in known.items():
@@ -402,14 +418,9 @@ def run(run):
         run.sample({"regex": str(to_z3(terms[i])), "impl": outs[i]})
     disagreements = []
     qlit = "true" if Q_QUIRK else "false"
-    try:
-        bad, dt = lib.coq_mismatches("c15a", IMPORTS, f"fun c : re * out => out_eqb (nifr_top {qlit} (fst c)) (snd c)", cases, shard=120)
-        run.cov["coq_seconds_nifr"] = round(dt, 1)
-        for i in bad:
-            disagreements.append(("nifr", i))
-    except RuntimeError as e:
-        run.violation({"kind": "correspondence-not-evaluable", "obligation": "Intervals.v nifr cases", "error": str(e)[-2000:]}, found_input=False)
+    fut_nifr = submit("c15a", f"fun c : re * out => out_eqb (nifr_top {qlit} (fst c)) (snd c)", cases, 160)
 
+    run.cov.setdefault('phase_seconds', {})['1_nifr_impl'] = round(time.time() - t_start, 1)
     # ---------------- 2. property search on the implementation's own outputs ----------------
     over_fail, exact_fail = [], []
     searched = 0
@@ -423,51 +434,60 @@ def run(run):
     run.cov["property_searched_regexes"] = searched
     run.cov["property_over_failures"] = len(over_fail)
     run.cov["property_exact_failures"] = len(exact_fail)
-    bad_idx = {i for k, i in disagreements if k == "nifr"}
-    try:
-        fail_terms = sorted({i for i, _ in over_fail} | {i for i, _ in exact_fail})
-        cls = {}
-        for name in ("K_valueor_lambda", "K_full_sign", "K_inner_sign", "documented_shapeb"):
-            hits = coq_flags("c15k_" + name, [terms[i] for i in fail_terms], name)
-            cls[name] = {fail_terms[j] for j in hits}
-    except RuntimeError as e:
-        cls = None
-        run.violation({"kind": "correspondence-not-evaluable", "obligation": "IntervalsFacts.v class predicates", "error": str(e)[-2000:]}, found_input=False)
-    unexplained = []
-    if cls is not None:
-        khist = {"K_valueor_lambda": 0, "K_full_sign": 0, "K_inner_sign": 0}
-        for kind, fails in (("over", over_fail), ("exact", exact_fail)):
-            for i, w in fails:
-                rec = {"kind": kind, "regex": str(to_z3(terms[i])), "term": terms[i], "impl": outs[i], "witness": w,
-                       "in_documented_shape": i in cls["documented_shapeb"]}
-                if i in bad_idx:
-                    unexplained.append(rec); continue          # model disagrees: reported below anyway
-                if i in cls["K_valueor_lambda"] and "valueor-lambda" in known:
-                    khist["K_valueor_lambda"] += 1; run.known(known["valueor-lambda"]["what"]); continue
-                if kind == "exact" and i in cls["K_full_sign"] and "full-sign" in known:
-                    khist["K_full_sign"] += 1; run.known(known["full-sign"]["what"]); continue
-                if kind == "exact" and i in cls["K_inner_sign"] and "inner-sign" in known:
-                    khist["K_inner_sign"] += 1; run.known(known["inner-sign"]["what"]); continue
-                if i not in cls["documented_shapeb"] and kind == "exact":
-                    continue      # outside the quantifier of the property and not an unsound (over) failure: ignored
-                unexplained.append(rec)
-        run.cov["known_class_histogram"] = khist
-    if unexplained:
-        unexplained.sort(key=lambda r: len(json.dumps(r)))
-        run.violation({"kind": "intervals differ from the integer values of the matched strings", "witness": unexplained[0],
-                       "all_failing": len(unexplained), "how_to_replay": "./check C15 --replay <this file>",
-                       "theorem": "Props/C15.v C15_intervals_overapprox / C15_intervals_exact_partial + correspondence"})
+    KNAMES = ("K_valueor_lambda", "K_full_sign", "K_inner_sign", "documented_shapeb")
+    fail_terms = sorted({i for i, _ in over_fail} | {i for i, _ in exact_fail})
+    kcases = [f"({k}%nat, {g_re(terms[i])})" for k in range(len(KNAMES)) for i in fail_terms]
+    fut_flags = submit("c15k", "fun c : nat * re => negb (match fst c with 0%nat => K_valueor_lambda | 1%nat => K_full_sign | 2%nat => K_inner_sign "
+                               "| _ => documented_shapeb end (snd c))", kcases, 300) if kcases else None
 
+    def classify_property(bad_idx):
+        """every failure of the property on the implementation's own output must belong to an OPEN finding class"""
+        cls = None
+        if fut_flags is None:
+            cls = {n: set() for n in KNAMES}
+        else:
+            hits = collect(fut_flags, "IvShape.v class predicates")
+            if hits is not None:
+                cls = {n: set() for n in KNAMES}
+                for h in hits:
+                    cls[KNAMES[h // len(fail_terms)]].add(fail_terms[h % len(fail_terms)])
+        unexplained = []
+        if cls is not None:
+            khist = {"K_valueor_lambda": 0, "K_full_sign": 0, "K_inner_sign": 0}
+            for kind, fails in (("over", over_fail), ("exact", exact_fail)):
+                for i, w in fails:
+                    rec = {"kind": kind, "regex": str(to_z3(terms[i])), "term": terms[i], "impl": outs[i], "witness": w,
+                           "in_documented_shape": i in cls["documented_shapeb"]}
+                    if i in bad_idx:
+                        unexplained.append(rec); continue          # model disagrees: reported anyway
+                    if i in cls["K_valueor_lambda"] and "valueor-lambda" in known:
+                        khist["K_valueor_lambda"] += 1; run.known(known["valueor-lambda"]["what"]); continue
+                    if kind == "exact" and i in cls["K_full_sign"] and "full-sign" in known:
+                        khist["K_full_sign"] += 1; run.known(known["full-sign"]["what"]); continue
+                    if kind == "exact" and i in cls["K_inner_sign"] and "inner-sign" in known:
+                        khist["K_inner_sign"] += 1; run.known(known["inner-sign"]["what"]); continue
+                    if i not in cls["documented_shapeb"] and kind == "exact":
+                        continue      # outside the quantifier of the property and not an unsound (over) failure: ignored
+                    unexplained.append(rec)
+            run.cov["known_class_histogram"] = khist
+        if unexplained:
+            unexplained.sort(key=lambda r: len(json.dumps(r)))
+            run.violation({"kind": "intervals differ from the integer values of the matched strings", "witness": unexplained[0],
+                           "all_failing": len(unexplained), "how_to_replay": "./check C15 --replay <this file>",
+                           "theorem": "Props/C15.v C15_intervals_overapprox / C15_intervals_exact_partial + correspondence"})
+        return unexplained
+
+    run.cov['phase_seconds']['2_property_search'] = round(time.time() - t_start, 1)
     # ---------------- 2b. stateful streams: a call's result must not depend on earlier calls ----------------
     # (i) families of deep regexes with identical str(); members queried in one process, in order, with repeats
     # (ii) compress on element lists built from such deep regexes (equal str, different elements must NOT be grouped)
     # (iii) a sample of the regexes of section 1 queried a second time after everything else
-    n_fam = 160 if thorough else 36
+    n_fam = 150 if thorough else 30
     stream, smeta, scases = [], [], []
     fams = [[nest("concat", [("str", sg)] + [ZERO] * 30 + [R19]) for sg in "-+"]]            # the seeded witness, first
     fams += [deep_family(rng) for _ in range(n_fam)]
     for fi, fam in enumerate(fams):
-        order = list(range(len(fam))) + [rng.randrange(len(fam)) for _ in range(2)]              # every member, then two repeats
+        order = list(range(len(fam))) + [rng.randrange(len(fam)) for _ in range(2 if thorough or not fi else 1)]   # every member, then repeats
         if fi: rng.shuffle(order)
         for j in order:
             t = fam[j]
@@ -482,39 +502,37 @@ def run(run):
     run.cov["stream_families_with_identical_str"] = same_str
     run.cov["stream_queries"] = len(stream)
     run.sample({"stream": [str(to_z3(t))[:60] + " ..." for t in fams[0]], "impl": smeta[:2]})
-    stream_bad = []
-    try:
-        bad, dt = lib.coq_mismatches("c15s", IMPORTS, f"fun c : re * out => out_eqb (nifr_top {qlit} (fst c)) (snd c)", scases, shard=40)
-        run.cov["coq_seconds_stream"] = round(dt, 1)
-        stream_bad = bad
-    except RuntimeError as e:
-        run.violation({"kind": "correspondence-not-evaluable", "obligation": "Intervals.v stream cases", "error": str(e)[-2000:]}, found_input=False)
-    # repeat-consistency of section 1 (history = everything this process has asked so far)
-    again = rng.sample(range(len(terms)), min(len(terms), 300))
-    repeat_bad = [i for i in again if impl_nifr(terms[i]) != outs[i]]
-    for i in again: run.count(("repeat", terms[i]), has_node(terms[i], ("concat", "union")))
-    run.cov["repeat_queries"] = len(again)
-    if stream_bad or repeat_bad:
-        if stream_bad:
-            k = stream_bad[0]
-            fi, t = stream[k]
-            o = smeta[k]
-            hist_terms = [x for (f, x) in stream[:k + 1] if f == fi]
-        else:
-            t, o = terms[repeat_bad[0]], impl_nifr(terms[repeat_bad[0]])
-            hist_terms = [t]
-        ov, ex = property_at(t, o[1]) if o[0] == "some" else (None, None)
-        wit = {"function": "numeric_intervals_from_regex (sequence of calls in one process)", "regex": str(to_z3(t))[:400], "term": t,
-               "history": hist_terms, "impl_after_history": o, "model": lib.coq_eval("c15sm", IMPORTS, f"nifr_top {qlit} {g_re(t)}")[-300:],
-               "first_answer_in_this_run": None if stream_bad else outs[repeat_bad[0]], "property_over": ov, "property_exact": ex}
-        found = ov not in (None, "n/a") or ex not in (None, "n/a") or o[0] == "raise"
-        run.violation({"kind": "result of a call depends on earlier calls (history dependence)" if found else
-                               "correspondence broken in the stateful stream, property holds at the differing call",
-                       "witness": wit, "all_failing": len(stream_bad) + len(repeat_bad), "how_to_replay": "./check C15 --replay <this file>",
-                       "obligation": "correspondence Intervals.v nifr <-> numeric_intervals_from_regex, per call",
-                       "theorem": "Props/C15.v (the model is a function of the regex alone)"}, found_input=found)
-    run.cov["stream_disagreements"] = len(stream_bad) + len(repeat_bad)
+    fut_stream = submit("c15s", f"fun c : re * out => out_eqb (nifr_top {qlit} (fst c)) (snd c)", scases, 30)
 
+    def finish_streams():
+        stream_bad = collect(fut_stream, "Intervals.v stream cases") or []
+        # repeat-consistency of section 1 (history = everything this process has asked so far)
+        again = rng.sample(range(len(terms)), min(len(terms), 300))
+        repeat_bad = [i for i in again if impl_nifr(terms[i]) != outs[i]]
+        for i in again: run.count(("repeat", terms[i]), has_node(terms[i], ("concat", "union")))
+        run.cov["repeat_queries"] = len(again)
+        if stream_bad or repeat_bad:
+            if stream_bad:
+                k = stream_bad[0]
+                fi, t = stream[k]
+                o = smeta[k]
+                hist_terms = [x for (f, x) in stream[:k + 1] if f == fi]
+            else:
+                t, o = terms[repeat_bad[0]], impl_nifr(terms[repeat_bad[0]])
+                hist_terms = [t]
+            ov, ex = property_at(t, o[1]) if o[0] == "some" else (None, None)
+            wit = {"function": "numeric_intervals_from_regex (sequence of calls in one process)", "regex": str(to_z3(t))[:400], "term": t,
+                   "history": hist_terms, "impl_after_history": o, "model": lib.coq_eval("c15sm", IMPORTS, f"nifr_top {qlit} {g_re(t)}")[-300:],
+                   "first_answer_in_this_run": None if stream_bad else outs[repeat_bad[0]], "property_over": ov, "property_exact": ex}
+            found = ov not in (None, "n/a") or ex not in (None, "n/a") or o[0] == "raise"
+            run.violation({"kind": "result of a call depends on earlier calls (history dependence)" if found else
+                                   "correspondence broken in the stateful stream, property holds at the differing call",
+                           "witness": wit, "all_failing": len(stream_bad) + len(repeat_bad), "how_to_replay": "./check C15 --replay <this file>",
+                           "obligation": "correspondence Intervals.v nifr <-> numeric_intervals_from_regex, per call",
+                           "theorem": "Props/C15.v (the model is a function of the regex alone)"}, found_input=found)
+        run.cov["stream_disagreements"] = len(stream_bad) + len(repeat_bad)
+
+    run.cov['phase_seconds']['2b_streams'] = round(time.time() - t_start, 1)
     # ---------------- 3. compress_concatenation_elements ----------------
     bases = [("str", "a"), ("str", "b"), ZERO, R09, ("star", ("str", "a")), ("plus", ("str", "a")), ("union", ("str", "a"), ("str", "b")),
              ("allchar",), ("opt", ("str", "a")), ("concat", ("str", "a"), ("str", "b"))]
@@ -528,7 +546,7 @@ def run(run):
         lists.append([rng.choice([lambda b: b, lambda b: ("star", b), lambda b: ("plus", b)])(rng.choice(bs)) for _ in range(k)])
     # stateful part: deep elements with identical str() — equal-looking but different elements must not be grouped,
     # and a later call must not see an earlier call's result
-    for _ in range(60 if thorough else 16):
+    for _ in range(60 if thorough else 10):
         fam = [nest("union", [f] + [("str", "5")] * rng.randint(23, 28)) for f in rng.sample(UNION_FIRSTS[:10], 3)]
         a, b, c = fam
         for l in ([a, ("star", a)], [b, ("star", b)], [a, ("star", b)], [("star", c), c, ("plus", c)], [("plus", a), ("plus", b)],
@@ -560,16 +578,12 @@ def run(run):
     run.cov["compress_cases"] = len(ccases)
     run.cov["compress_changed"] = sum(1 for l, o in cmeta if o[0] == "ok" and o[1] != l)
     run.sample({"compress": [str(to_z3(t)) for t in lists[0]], "impl": [str(to_z3(t)) for t in cmeta[0][1][1]]})
-    try:
-        bad, dt = lib.coq_mismatches("c15b", IMPORTS, "fun c : list re * res (list re) => res_eqb re_list_eqb (compress (fst c)) (snd c)", ccases, shard=400)
-        run.cov["coq_seconds_compress"] = round(dt, 1)
-        for i in bad: disagreements.append(("compress", i))
-    except RuntimeError as e:
-        run.violation({"kind": "correspondence-not-evaluable", "obligation": "Intervals.v compress cases", "error": str(e)[-2000:]}, found_input=False)
+    fut_compress = submit("c15b", "fun c : list re * res (list re) => res_eqb re_list_eqb (compress (fst c)) (snd c)", ccases, 250)
     if lang_fail:
         run.violation({"kind": "compressed concatenation changes the language or raises", "witness": lang_fail[0], "all_failing": len(lang_fail),
                        "theorem": "Props/C15.v C15_compress_lang / C15_compress_no_assert"})
 
+    run.cov['phase_seconds']['3_compress'] = round(time.time() - t_start, 1)
     # ---------------- 4. merge_intervals ----------------
     mcases, mmeta = [], []
     for _ in range(2000 if thorough else 400):
@@ -596,14 +610,10 @@ def run(run):
     if raised:
         run.violation({"kind": "merge_intervals raised", "witness": {"input": raised[0][0], "impl": raised[0][1]}})
     mc = [c for c in mcases if c is not None]
-    try:
-        bad, dt = lib.coq_mismatches("c15c", IMPORTS,
-                                     "fun c : list (option (list iv)) * option (list iv) => match merge_maybe (fst c), snd c with "
-                                     "Some a, Some b => ivs_eqb a b | None, None => true | _, _ => false end", mc, shard=400)
-        for i in bad: disagreements.append(("merge", i))
-    except RuntimeError as e:
-        run.violation({"kind": "correspondence-not-evaluable", "obligation": "Intervals.v merge cases", "error": str(e)[-2000:]}, found_input=False)
+    fut_merge = submit("c15c", "fun c : list (option (list iv)) * option (list iv) => match merge_maybe (fst c), snd c with "
+                               "Some a, Some b => ivs_eqb a b | None, None => true | _, _ => false end", mc, 400)
 
+    run.cov['phase_seconds']['4_merge'] = round(time.time() - t_start, 1)
     # ---------------- 5. regex semantics: matchb (Coq) vs Z3 InRe (and python re) ----------------
     alpha = "0159+-a"
     pool = [t for t in terms if size(t) <= 14]
@@ -631,13 +641,18 @@ def run(run):
             run.count(("inre", t, s), has_node(t, ("concat", "union")) and len(s) >= 1)
     run.cov["inre_cases"] = len(zcases)
     run.cov["inre_true"] = sum(1 for m in zmeta if m[2])
-    try:
-        bad, dt = lib.coq_mismatches("c15d", IMPORTS, "fun c : re * str * bool => Bool.eqb (matchb (fst (fst c)) (snd (fst c))) (snd c)", zcases, shard=300)
-        for i in bad: disagreements.append(("inre", i))
-    except RuntimeError as e:
-        run.violation({"kind": "correspondence-not-evaluable", "obligation": "IvRe.v matchb cases", "error": str(e)[-2000:]}, found_input=False)
+    fut_inre = submit("c15d", "fun c : re * str * bool => Bool.eqb (matchb (fst (fst c)) (snd (fst c))) (snd c)", zcases, 300)
 
-    # ---------------- 6. classify model/implementation disagreements ----------------
+    # ---------------- 6. collect the Coq evaluations; classify model/implementation disagreements ----------------
+    run.cov["python_side_seconds"] = round(time.time() - t_start, 1)
+    for i in collect(fut_nifr, "Intervals.v nifr cases") or []: disagreements.append(("nifr", i))
+    unexplained = classify_property({i for k, i in disagreements if k == "nifr"})
+    finish_streams()
+    for i in collect(fut_compress, "Intervals.v compress cases") or []: disagreements.append(("compress", i))
+    for i in collect(fut_merge, "Intervals.v merge cases") or []: disagreements.append(("merge", i))
+    for i in collect(fut_inre, "IvRe.v matchb cases") or []: disagreements.append(("inre", i))
+    pool_ex.shutdown()
+    run.cov["correspondence_seconds"] = round(time.time() - t_start, 1)
     run.cov["disagreements_checked"] = len(disagreements)
     if disagreements:
         k, i = disagreements[0]
